@@ -155,8 +155,8 @@ static void h_op(void)
   else if (!strcmp(op, "textize")) {
     if (!D) { h_out("bad-op"); return; }
     drop_T();
-    T = malloc((size_t) DL + 1); TL = DL;
-    { int status = esl_abc_Textize(A, D, DL, (char *) T); h_out("%s %s", h_status(status), h_hex(T, TL)); }
+    T = malloc((size_t) DL + 1); TL = DL; memset(T, 0xEE, (size_t) DL + 1);
+    { int status = esl_abc_Textize(A, D, DL, (char *) T); h_out("%s %s nul=%d", h_status(status), h_hex(T, TL), T[TL] == 0 ? 1 : 0); T[TL] = 0; }
   }
   else if (!strcmp(op, "textizen")) {
     int64_t off = h_argi("off", 1), L = h_argi("L", 0); unsigned char *buf;
